@@ -5,7 +5,7 @@ import numpy as np
 from tempest import Sampler
 
 
-def run(f, ess_ratio, n, seed, vectorize=False):
+def run(f, ess_ratio, n, seed, vectorize=False, out_dtype=None):
     def pt(u):
         return u
     cnt = {"fin": [], "cur": None}
@@ -16,7 +16,7 @@ def run(f, ess_ratio, n, seed, vectorize=False):
     def llv(X):
         out = -0.5 * np.sum((X - 0.3 * f) ** 2, axis=1) / 0.05 ** 2
         out[X[:, 0] >= f] = -np.inf
-        return out
+        return out if out_dtype is None else out.astype(out_dtype)
     orig = np.random.rand
     fracs = []
 
@@ -81,8 +81,52 @@ def run_sparse(f, n, d, seed, ess_ratio):
     return None
 
 
+def long_warmup():
+    """a long prior-sampling history (more than 2**22 table entries: 48 batches of 4096 prior draws) for a top-hat likelihood (1 on a
+    region of prior mass f, 0 elsewhere): every stored particle has logl = 0, every batch records logz = log(its finite fraction), and the
+    evidence at beta = 1 recomputed from the history is log(total finite / total drawn) - exact, no Monte-Carlo tolerance"""
+    from tempest.state_manager import StateManager
+    rng = np.random.RandomState(7)
+    f, n, T = 0.25, 4096, 48
+    st = StateManager(2)
+    fin_total = 0
+    for t in range(T):
+        k = int(rng.binomial(n, f))
+        fin_total += k
+        u = rng.rand(n, 2)
+        st.update_current({"u": u, "x": u.copy(), "logl": np.zeros(n), "beta": 0.0, "logz": float(np.log(k / n)), "iter": t, "calls": n * (t + 1),
+                           "assignments": np.zeros(n, dtype=int)})
+        st.commit_current_to_history()
+    lw, lz = st.compute_logw_and_logz(1.0)
+    zs = np.asarray(st.get_history("logz"), dtype=float)
+    want = -np.log(np.mean(np.exp(-zs)))          # log of N / sum_t n_t / f_t  for equal batch sizes
+    if not np.isfinite(lz) or abs(lz - want) > 1e-9:
+        return (f"{T} prior-sampling batches of {n} draws, top-hat likelihood on a region of mass {f}: evidence at beta = 1 recomputed from the history is {lz!r}, "
+                f"the exact value for the recorded fractions is {want!r} (log f = {np.log(f):.6f})")
+    if abs(np.exp(lw).sum() - 1) > 1e-9 or np.ptp(lw) > 1e-9:
+        return f"long warm-up history: the normalised weights of identical particles are not uniform (spread {np.ptp(lw):.3g})"
+    return None
+
+
 def main():
     tried = 0
+    tried += 1
+    try:
+        r = long_warmup()
+    except Exception as e:
+        r = f"long warm-up history: {type(e).__name__}: {e}"
+    if r:
+        print(json.dumps({"reproduced": True, "detail": r, "input": {"case": "long-warmup", "f": 0.25, "n": 4096, "T": 48}, "tried": tried}))
+        return
+    for f, er, seed in ((0.5, 2.0, 0), (0.2, 2.0, 1), (0.25, 4.0, 2)):
+        tried += 1
+        try:
+            r = run(f, er, 200, seed, True, np.float32)
+        except Exception as e:
+            r = f"{type(e).__name__}: {e}"
+        if r:
+            print(json.dumps({"reproduced": True, "detail": "vectorised likelihood returning float32: " + r, "input": {"f": f, "ess_ratio": er, "n_particles": 200, "seed": seed, "vectorize": True, "output_dtype": "float32"}, "tried": tried}))
+            return
     for f, n, d, seed, er in ((0.05, 128, 5, 0, 2.0), (0.05, 128, 5, 1, 1.0), (0.04, 96, 4, 2, 2.0), (0.3, 24, 5, 3, 2.0), (0.05, 128, 5, 4, 2.0), (0.05, 128, 5, 5, 2.0)):
         tried += 1
         try:
